@@ -37,8 +37,9 @@ DoConst == Is("const") /\ Write(IF e.name = "BASE" THEN GBase(grp) ELSE GNeutral
 DoDecode ==
     /\ Is("decode")
     /\ LET d == GDecode(grp, e["in"])
-       IN IF d[1] THEN Advance(Put(d[2]), Has("some") /\ e.some = TRUE /\ Has("out") /\ e.out = GEncode(grp, d[2]))
-          ELSE Advance(regs, Has("some") /\ e.some = FALSE)
+           stOk == Has("st") => e.st = Status(d[1])       \* status word of set_decode: all-ones iff accepted
+       IN IF d[1] THEN Advance(Put(d[2]), Has("some") /\ e.some = TRUE /\ Has("out") /\ e.out = GEncode(grp, d[2]) /\ stOk)
+          ELSE Advance(regs, Has("some") /\ e.some = FALSE /\ stOk)
 (* ---- group law (C03) ---- *)
 DoAdd == Is("add") /\ Write(GAdd(grp, R(e.a), R(e.b)))
 DoSub == Is("sub") /\ Write(GAdd(grp, R(e.a), GNeg(grp, R(e.b))))
